@@ -183,3 +183,22 @@ M("tp22_refused_send_emits", ["C10", "C02"], "FD: BAM announced before the capac
    "                session_num = self.__get_bam_session()\n                if session_num == None:\n                    self._J1939_22__send_tp_bam(priority, src_address, 0, pgn.value, data_length, 1)\n                    return False"))
 M("tp22_capacity_7", ["C10", "C02"], "FD: only 7 RTS/CTS sessions",
   ("j1939/j1939_22.py", "        self.__rts_cts_session_list = [True] * 8", "        self.__rts_cts_session_list = [True] * 7"))
+
+M("tp21_late_cts_spins", ["C07"], "J1939-21: no fallback when a CTS leaves nothing to send (D13 reverted)",
+  ("j1939/j1939_21.py", "                        if (buf['state'] == self.SendBufferState.SENDING_IN_CTS) and (buf['next_packet_to_send'] >= buf['num_packages']):", "                        if False:"))
+M("tp22_late_cts_spins", ["C07"], "J1939-22: no fallback when a CTS leaves nothing to send",
+  ("j1939/j1939_22.py", "                        if (buf['state'] == self.SendBufferState.SENDING_RTS_CTS) and (buf['next_packet_to_send'] >= buf['num_segments']):", "                        if False:"))
+M("tp22_bam_reannounce_keyerror", ["C07"], "FD: re-announced BAM raises KeyError and is dropped (D3 reverted)",
+  ("j1939/j1939_22.py", "                del self._rcv_buffer[buffer_hash]\n\n            # init new buffer for this connection\n            self._rcv_buffer[buffer_hash] = {\n                    'pgn': pgn,\n                    'session': session_num,\n                    'message_size': message_size, # Total message size, number of bytes",
+   "                del self._rcv_buffer[buffer_hash]\n                return\n\n            # init new buffer for this connection\n            self._rcv_buffer[buffer_hash] = {\n                    'pgn': pgn,\n                    'session': session_num,\n                    'message_size': message_size, # Total message size, number of bytes"))
+M("tp22_rcv_timeout_indexerror", ["C07", "C10"], "FD: receive time-out indexes the session pool with the remote session number (D2 reverted)",
+  ("j1939/j1939_22.py", "                        self.__send_tp_abort(buf['dest_address'], buf['src_address'], buf['session'], self.ConnectionAbortReason.TIMEOUT, buf['pgn'])\n                        self._rcv_buffer.pop(bufid, None)\n",
+   "                        self.__send_tp_abort(buf['dest_address'], buf['src_address'], buf['session'], self.ConnectionAbortReason.TIMEOUT, buf['pgn'])\n                        self._rcv_buffer.pop(bufid, None)\n                        self._J1939_22__put_rts_cts_session(buf['session'])\n"))
+M("tp21_rcv_never_times_out", ["C07", "C06"], "J1939-21: RTS opens a receive session without deadline",
+  ("j1939/j1939_21.py", "                    'deadline': time.time() + self.Timeout.T2,\n                    'src_address' : src_address,\n                    'dest_address' : dest_address,\n                }\n\n            self.__send_tp_cts(dest_address, src_address, self._rcv_buffer[buffer_hash]['num_packages_max_rec'], 1, pgn)",
+   "                    'deadline': 0,\n                    'src_address' : src_address,\n                    'dest_address' : dest_address,\n                }\n\n            self.__send_tp_cts(dest_address, src_address, self._rcv_buffer[buffer_hash]['num_packages_max_rec'], 1, pgn)"))
+M("listener_no_containment", ["C07"], "bus listener lets exceptions from frame handling escape",
+  ("j1939/electronic_control_unit.py", "        except Exception as e:\n            # Exceptions in any callbaks should not affect CAN processing\n            logger.error(str(e))",
+   "        except ZeroDivisionError as e:\n            # Exceptions in any callbaks should not affect CAN processing\n            logger.error(str(e))"))
+M("tp21_hold_rearms_forever", ["C07"], "hold CTS disables the send deadline",
+  ("j1939/j1939_21.py", "                self._snd_buffer[buffer_hash]['deadline'] = time.time() + self.Timeout.Th\n", "                self._snd_buffer[buffer_hash]['deadline'] = 0\n"))
